@@ -6,11 +6,11 @@ import re
 
 
 def extract(g, X):
-    ty = X.strip_comments(X.read("pdf/src/object/types.rs"))
-    co = X.strip_comments(X.read("pdf/src/object/color.rs"))
-    fu = X.strip_comments(X.read("pdf/src/object/function.rs"))
-    en = X.strip_comments(X.read("pdf/src/encoding.rs"))
-    ec = X.strip_comments(X.read("pdf/src/enc.rs"))
+    ty = X.source("pdf/src/object/types.rs")
+    co = X.source("pdf/src/object/color.rs")
+    fu = X.source("pdf/src/object/function.rs")
+    en = X.source("pdf/src/encoding.rs")
+    ec = X.source("pdf/src/enc.rs")
 
     def tree_depth():
         vals = re.findall(r"self\.walk_limited\(\s*\w+\s*,\s*\w+\s*,\s*(\d+)\s*,", ty)
